@@ -56,6 +56,15 @@ CHECKS = {
  "C20": dict(engine="sim", technique="property-based testing: metamorphic relation across decode levels and run-time level changes",
              text="Cases from the C01/C08/C11/C12 generators re-executed at decode level nothing, highest, random and with a level change injected at a generated script position; wire bytes, results, instants, handler logs and end reasons must be identical.",
              ref="DESIGN.md section 4 C20"),
+ "C13": dict(engine="net", technique="stateful property-based testing in real time: generated operation/fault scripts injected at listener-gate lock-step points against the real TCP channel task; life-cycle automaton oracle",
+             text="The connection-state listener parks the real TcpChannelTask at every transition while the harness injects generated operations and chooses the outcome of the next connection attempt (refused / closed / garbage / silent / served); observed state paths, request outcomes, stray connection attempts and task termination are judged by a life-cycle automaton. Black box over loopback TCP; failing scripts are re-run with longer time budgets before being reported.",
+             ref="DESIGN.md section 4 C13", note="Trusted base: the harness's automaton and gate mechanism, the OS TCP stack on loopback, real time (scripts that fail are re-run twice). No hook is used. Serial (pty) channels are not exercised by this check."),
+ "C14": dict(engine="net", technique="property-based testing: closed-form delay model for the public strategy object (generated call sequences) + real-time measurement of announced vs. waited delays on the TCP channel task",
+             text="(a) 300k generated production-legal call sequences on doubling_retry_strategy compared with min(min*2^(k-1), max); (b) generated failing/short-lived connection sequences against the real TCP channel task: announced durations follow the model and the next attempt never starts earlier than announced.",
+             ref="DESIGN.md section 4 C14", note="Trusted base: closed-form model in u128; wall-clock measurement with 1 ms tolerance, lower bound only. The RTU server's and serial client's use of the strategy is not measured by this check."),
+ "C15": dict(engine="net", technique="stateful property-based testing in real time: generated connection histories against the real TCP server task, FIFO-eviction session model, sentinel/EOF probes after every step",
+             text="Generated histories of connects, closes, requests, malformed headers, split requests, decode-level changes, shutdown and handle drop with max_sessions 0..4; after every step every connection is probed and must be served or closed exactly as the FIFO-eviction model says.",
+             ref="DESIGN.md section 4 C15", note="Trusted base: the session model, loopback TCP, settling delays (failing histories are re-run with 2x/4x delays). TLS servers share the same session tracker code and are not separately exercised here."),
 }
 
 NOT_YET = {
